@@ -51,8 +51,14 @@ def cls_of(e):
     return CLS.get(type(e).__name__, 99)
 
 
+def handler_cls(e):
+    """what a handler in a generated body may depend on: opaque exceptions and their replayed form look alike"""
+    c = cls_of(e)
+    return 9 if c == 1 else c
+
+
 def msg_of(e):
-    m = re.search(r"m(\d+)", str(e))
+    m = re.search(r"zq(\d+)zq", str(e))
     return int(m.group(1)) if m else 0
 
 
@@ -79,7 +85,7 @@ def show_exc(e):
 # ------------------------------------------------------------------------------------------------
 
 def gen_program(rng, nfns=None, ctx_rate=0.25, exc_rate=0.3, batch_rate=0.25, hidden_rate=0.06, res_rate=0.15,
-                flag_rate=0.1):
+                flag_rate=0.1, prevent_rate=0.0):
     nfns = nfns or rng.randint(2, 6)
     fns = {}
     for f in range(1, nfns + 1):
@@ -91,7 +97,7 @@ def gen_program(rng, nfns=None, ctx_rate=0.25, exc_rate=0.3, batch_rate=0.25, hi
                 if rng.random() < ctx_rate:
                     ctx = rng.choice([0, 1, 2])
                 ign = rng.random() < flag_rate
-                prev = rng.random() < flag_rate * 0.6
+                prev = rng.random() < prevent_rate
                 hidden = rng.random() < hidden_rate
                 if rng.random() < batch_rate:
                     offs = [rng.choice([0, 0, 1, 2]) for _ in range(rng.randint(0, 3))]
@@ -193,7 +199,7 @@ def render(prog, modname):
                 call = "%s(a + %d)" % (_target(g, ctx, ign, prev, hidden), off)
                 if catch:
                     L += ["    try:", "        _r = %s" % call, "        s += 0 if _r is None else _r",
-                          "    except Exception as _e:", "        s += -1000 - progs.cls_of(_e)"]
+                          "    except Exception as _e:", "        s += -1000 - progs.handler_cls(_e)"]
                 else:
                     L += ["    _r = %s" % call, "    s += 0 if _r is None else _r"]
             else:
@@ -203,7 +209,7 @@ def render(prog, modname):
                 L.append("    s += progs.sum_slots(_rs)")
         m, r, cls, msg = d["raise"]
         if m:
-            exc = {0: 'ValueError("m%d")' % msg, 1: 'Opaque("m%d", 1)' % msg, 2: 'NonMemoizedException("m%d")' % msg}[cls]
+            exc = {0: 'ValueError("zq%dzq")' % msg, 1: 'Opaque("zq%dzq", 1)' % msg, 2: 'NonMemoizedException("zq%dzq")' % msg}[cls]
             L += ["    if a >= 0 and a %% %d == %d:" % (m, r), "        raise %s" % exc]
         L.append("    return s + %d" % d["const"])
         L.append("")
